@@ -272,17 +272,8 @@ func c11R1(r *Report) {
 				if c, ok := cond.(*ssa.Call); ok && isCallNamed(c, "peer", "isFast") && pol && isPiece(sj, c.Call.Args[1]) {
 					return true
 				}
-				bo, ok := cond.(*ssa.BinOp)
-				if !ok {
-					return false
-				}
-				if k, okk := constInt(bo.Y); !okk || k != 0 {
-					return false
-				}
-				if fv, _ := loadedField(bo.X); fv != unF {
-					return false
-				}
-				return (bo.Op == token.EQL && !pol) || (bo.Op == token.NEQ && pol)
+				fv, set, okf := flagTest(cond, pol)
+				return okf && fv == unF && set
 			}},
 			{Name: "outstanding < 2 or outstanding < peer.reqQ", ViaHelper: true, Match: func(cond ssa.Value, pol bool) bool {
 				op, x, y, ok := cmpFact(Guard{Cond: cond, Pol: pol})
